@@ -151,12 +151,19 @@ func c16Level1(ctx context.Context, run *common.Run, obs *c16obs, idx int) {
 	var wg sync.WaitGroup
 	var terminal int32 // set once a terminal action has completed
 	handlerReturned := false
+	var doneMu sync.Mutex
+	actorDone := map[string]bool{}
 	for _, a := range acts {
 		a := a
 		delay := time.Duration(rng.Intn(300)) * time.Microsecond
 		wg.Add(1)
 		go func() {
 			defer wg.Done()
+			defer func() {
+				doneMu.Lock()
+				actorDone[a] = true
+				doneMu.Unlock()
+			}()
 			time.Sleep(delay)
 			switch a {
 			case "handler":
@@ -214,8 +221,16 @@ func c16Level1(ctx context.Context, run *common.Run, obs *c16obs, idx int) {
 	desc := fmt.Sprintf("acts=%v k=%d/%d early-close=%v wrong-block=%v", acts, k, n, earlyClose, wrongBlock)
 	wit := map[string]interface{}{"kind": "downloader-schedule", "case": idx, "seed": run.Seed, "actions": acts, "txs_fed": k, "txs": n}
 	if ok, st := waitOrState(actorsDone, 20*time.Second); !ok {
-		run.Violate(common.Violation{Clause: "nothing-stays-blocked-on-signalling-channels", Signature: "actor-blocked/" + st + "/" + sortedJoin(acts),
-			Detail: desc + ": an action (HandleBlock/Cancel/Stop) did not return; events " + log.String(), Witness: wit})
+		var stuck []string
+		doneMu.Lock()
+		for _, a := range acts {
+			if !actorDone[a] {
+				stuck = append(stuck, a)
+			}
+		}
+		doneMu.Unlock()
+		run.Violate(common.Violation{Clause: "nothing-stays-blocked-on-signalling-channels", Signature: "action-does-not-return/" + sortedJoin(stuck) + "/of=" + sortedJoin(acts),
+			Detail: desc + ": " + sortedJoin(stuck) + " did not return; events " + log.String() + "; goroutines in downloader/manager frames (whole process): " + st, Witness: wit})
 		select {
 		case <-interrupt:
 		default:
@@ -229,8 +244,8 @@ func c16Level1(ctx context.Context, run *common.Run, obs *c16obs, idx int) {
 	if ok, st := waitOrState(runDone, 20*time.Second); !ok {
 		onlySkipped := len(acts) == 1 && acts[0] == "handler" && strings.Contains(log.String(), "hb-skipped")
 		if !onlySkipped {
-			run.Violate(common.Violation{Clause: "run-returns", Signature: "run-does-not-return/" + st + "/" + sortedJoin(acts),
-				Detail: desc + ": all actions completed but Run is still waiting; events " + log.String(), Witness: wit})
+			run.Violate(common.Violation{Clause: "run-returns", Signature: "run-does-not-return/after=" + sortedJoin(acts),
+				Detail: desc + ": all actions completed but Run is still waiting; events " + log.String() + "; goroutines in downloader/manager frames (whole process): " + st, Witness: wit})
 		}
 		select {
 		case <-interrupt:
